@@ -22,7 +22,7 @@ Section TreeInd.
   Hypothesis HCD : forall p i nx r, OptP Pc nx -> Pg r -> Pc (CD p i nx r).
   Hypothesis HMD : forall p i nx r, OptP Pm nx -> Pg r -> Pm (MD p i nx r).
   Hypothesis HFD : forall p i prims, Forall Pp prims -> Pf (FD p i prims).
-  Hypothesis HPR : forall k r ins img, OptP Pg img -> Pp (PR k r ins img).
+  Hypothesis HPR : forall k sb r ins img, OptP Pg img -> Pp (PR k sb r ins img).
   Hypothesis HPNone : Pa PNone.
   Hypothesis HPColor : Pa PColor.
   Hypothesis HPLin : forall p i, Pa (PLin p i).
@@ -76,8 +76,8 @@ Section TreeInd.
     end
   with prim_ind' (p : prim) {struct p} : Pp p :=
     match p return Pp p with
-    | PR k r ins img =>
-        HPR k r ins img (match img return OptP Pg img with Some g => group_ind' g | None => I end)
+    | PR k sb r ins img =>
+        HPR k sb r ins img (match img return OptP Pg img with Some g => group_ind' g | None => I end)
     end
   with paint_ind' (p : paint) {struct p} : Pa p :=
     match p return Pa p with
@@ -147,8 +147,8 @@ Section Eqns.
     walk_mask sf f (MD p i nx r) a =
     match nx with Some c' => walk_mask sf f c' (walk_group sf f r a) | None => walk_group sf f r a end.
   Proof. destruct nx; reflexivity. Qed.
-  Lemma walk_prim_eq k r ins img a :
-    walk_prim sf f (PR k r ins img) a = match img with Some g => walk_group sf f g a | None => a end.
+  Lemma walk_prim_eq k sb r ins img a :
+    walk_prim sf f (PR k sb r ins img) a = match img with Some g => walk_group sf f g a | None => a end.
   Proof. destruct img; reflexivity. Qed.
   Lemma walk_paint_pat p i r a : walk_paint sf f (PPat p i r) a = walk_group sf f r a.
   Proof. reflexivity. Qed.
@@ -169,8 +169,8 @@ Proof. destruct nx; reflexivity. Qed.
 Lemma all_mask_eq p i nx r :
   all_mask (MD p i nx r) = all_group r ++ match nx with Some c' => all_mask c' | None => [] end.
 Proof. destruct nx; reflexivity. Qed.
-Lemma all_prim_eq k r ins img :
-  all_prim (PR k r ins img) = match img with Some g => all_group g | None => [] end.
+Lemma all_prim_eq k sb r ins img :
+  all_prim (PR k sb r ins img) = match img with Some g => all_group g | None => [] end.
 Proof. destruct img; reflexivity. Qed.
 Lemma all_paint_pat p i r : all_paint (PPat p i r) = all_group r.
 Proof. reflexivity. Qed.
@@ -282,7 +282,7 @@ Section WalkInv.
       + apply Hx; auto. eapply inv_on_incl; [|exact HI]. simpl. apply incl_appl, incl_refl.
       + eapply inv_on_incl; [|exact HI]. simpl. apply incl_appr, incl_refl.
     - (* PR *)
-      intros k r ins img Hi I HI a Ha. rewrite walk_prim_eq. rewrite all_prim_eq in HI.
+      intros k sb r ins img Hi I HI a Ha. rewrite walk_prim_eq. rewrite all_prim_eq in HI.
       destruct img as [g|]; auto. simpl in Hi. apply (Hi I); auto.
     - intros I HI a Ha; exact Ha.
     - intros I HI a Ha; exact Ha.
@@ -411,7 +411,7 @@ Section WalkDone.
       + apply (walk_prims_stable r). apply Hx; auto.
       + apply IH; auto.
     - (* PR *)
-      intros k r ins img Hi n Hn a. rewrite all_prim_eq in Hn. rewrite walk_prim_eq.
+      intros k sb r ins img Hi n Hn a. rewrite all_prim_eq in Hn. rewrite walk_prim_eq.
       destruct img as [g|]; [|destruct Hn]. simpl in Hi. apply Hi; auto.
     - intros n [].
     - intros n [].
